@@ -15,7 +15,7 @@ func init() {
 		id: "C03",
 		li: levelInfo{
 			Level:       "other",
-			Explanation: "Static necessary conditions of single-server equivalence on a stable cluster. R1 (routing-key agreement): at every call of MakeRequest(key, req) the key is Array[p].Text of the body of the very request that is passed, with p the key position of that handler kind (1 for simple, sum-result and split children, 3 for EVAL); every name routed by a generic handler has first-key position 1 in the Redis <= 5.0 reference. R2: split/assemble agreement (shared with C01.R3). R3 (who-may-write): the only functions that write into an existing RESP value (its fields, its array elements or the bytes of its text) are the compression filter and the SCAN cursor rewrite - nothing else can alter relayed bytes. R4 (routing-table fill): CLUSTER NODES fields are read at positions 0 / 1 / 3 / 8+, only master lines receive slots, replicas are removed from the returned map, slot ranges are expanded inclusively, a refresh rewrites every listed slot with the parsed instance under the range guard and nothing else writes the table. R5: no alias of the read buffer escapes (shared with C10.R2). Reply equivalence for all programs is value-level and is not decided.",
+			Explanation: "Static necessary conditions of single-server equivalence on a stable cluster. R1 (routing-key agreement): at every call of MakeRequest(key, req) the key is Array[p].Text of the body of the very request that is passed, with p the key position of that handler kind (1 for simple, sum-result and split children, 3 for EVAL); every name routed by a generic handler has first-key position 1 in the Redis <= 5.0 reference. R2: split/assemble agreement (shared with C01.R3). R3 (who-may-write): the only functions that write into an existing RESP value (its fields, its array elements or the bytes of its text) are the compression filter and the SCAN cursor rewrite - nothing else can alter relayed bytes. R4 (routing-table fill): CLUSTER NODES fields are read at positions 0 / 1 / 3 / 8+, only master lines receive slots, replicas are removed from the returned map, slot ranges are expanded inclusively, a refresh rewrites every listed slot with the parsed instance under the range guard and nothing else writes the table. R5: no alias of the read buffer escapes (shared with C10.R2). R6 (owner first): the key->slot function equals the Redis Cluster specification - the C12 obligations (CRC table and step by GF(2)-affine interpretation, fold order, hash-tag decision tree over the four orderings, routing index crc16(hashtag(key))&16383) are re-evaluated here. R7 (pipeline order): a request stays on the goroutine that read it until it is enqueued on a backend queue - no go statement carries a request into code that can enqueue it. Reply equivalence for all programs is value-level and is not decided.",
 			Assumptions: []string{"Redis <= 5.0 command table and CLUSTER NODES line format embedded as references"},
 			TrustedBase: []string{"go/ssa", "VTA call graph", "embedded references"},
 		},
@@ -31,6 +31,7 @@ func checkC03(c *Ctx) {
 	c.Rule("R3", "payload writers: only the compression filter and the SCAN cursor rewrite write into existing RESP values")
 	c.Rule("R4", "routing table fill: CLUSTER NODES field positions, master-only slots, inclusive ranges, full rewrite, single writer")
 	c.Rule("R5", "no alias of the read buffer escapes into a value")
+	c.Rule("R6", "owner first: the key->slot function is the Redis Cluster one (the C12 obligations O1-O5 re-evaluated: CRC table and step, fold, hash-tag decision tree, routing index)")
 
 	mr := p.Func(redisPkg, "(*upstream).MakeRequest")
 	if mr == nil {
@@ -225,6 +226,19 @@ func checkC03(c *Ctx) {
 
 	// ---------------- R5
 	checkReadBufferAlias(c, "R5")
+
+	// ---------------- R7
+	c.Rule("R7", "pipeline order: no go statement hands a request to code that can enqueue it on a request queue")
+	checkNoRequestGoroutine(c, "R7")
+
+	// ---------------- R6
+	exh, had := c.Extra["exhaustive"]
+	c.withAlias(map[string]string{"O1": "R6", "O2": "R6", "O3": "R6", "O4": "R6", "O5": "R6"}, func() { checkC12(c) })
+	if had {
+		c.Extra["exhaustive"] = exh
+	} else {
+		delete(c.Extra, "exhaustive")
+	}
 }
 
 func freshSlice(v ssa.Value) bool {
@@ -457,4 +471,113 @@ func checkClusterNodesParser(c *Ctx, rule string) {
 		}
 	}
 	c.Check(okIncl, rule, "slot range expansion", sl.Pos(), "for i := start; i <= end; i++", "the slot range loop was not found")
+}
+
+// checkNoRequestGoroutine (C03.R7): between being read from a connection and being enqueued on a backend queue a
+// request stays on the goroutine that read it. A `go` statement that carries a request value (argument or captured
+// variable) into code that can enqueue on a request queue makes the order in which a pipeline reaches the backend
+// depend on the scheduler: SET k v; GET k can execute as GET; SET.
+func checkNoRequestGoroutine(c *Ctx, rule string) {
+	p := c.P
+	// functions that contain a send on a channel whose element is a request
+	var senders []*ssa.Function
+	nsend := 0
+	for _, fn := range p.SrcFns {
+		if p.isTestFn(fn) || fn.Pkg == nil || fn.Pkg.Pkg.Path() != modPath+"/"+redisPkg {
+			continue
+		}
+		has := false
+		eachInstr(fn, func(_ *ssa.BasicBlock, _ int, in ssa.Instruction) {
+			switch x := in.(type) {
+			case *ssa.Send:
+				if ch, ok := x.Chan.Type().Underlying().(*types.Chan); ok && isReqType(ch.Elem()) {
+					has = true
+				}
+			case *ssa.Select:
+				for _, st := range x.States {
+					if ch, ok := st.Chan.Type().Underlying().(*types.Chan); ok && st.Dir == types.SendOnly && isReqType(ch.Elem()) {
+						has = true
+					}
+				}
+			}
+		})
+		if has {
+			nsend++
+			senders = append(senders, fn)
+		}
+	}
+	isSender := map[*ssa.Function]bool{}
+	for _, f := range senders {
+		isSender[f] = true
+	}
+	carriesReq := func(v ssa.Value) bool {
+		t := v.Type()
+		if isReqType(t) {
+			return true
+		}
+		if pt, ok := t.Underlying().(*types.Pointer); ok {
+			if wrapperHeldField(pt.Elem()) != nil {
+				return true
+			}
+			// a captured variable cell holding a request
+			if isReqType(pt.Elem()) {
+				return true
+			}
+		}
+		return false
+	}
+	ngo := 0
+	perFn := map[*ssa.Function]int{}
+	for _, fn := range p.SrcFns {
+		if p.isTestFn(fn) || fn.Pkg == nil || fn.Pkg.Pkg.Path() != modPath+"/"+redisPkg {
+			continue
+		}
+		eachInstr(fn, func(_ *ssa.BasicBlock, _ int, in ssa.Instruction) {
+			g, ok := in.(*ssa.Go)
+			if !ok {
+				return
+			}
+			ngo++
+			perFn[fn]++
+			site := fmt.Sprintf("go statement #%d in %s", perFn[fn], fnKey(fn))
+			var vals []ssa.Value
+			vals = append(vals, g.Call.Args...)
+			if mc, ok := g.Call.Value.(*ssa.MakeClosure); ok {
+				vals = append(vals, mc.Bindings...)
+			}
+			carried := ""
+			for _, v := range vals {
+				if carriesReq(v) {
+					carried = v.Name()
+					if v.Type() != nil {
+						carried = types.TypeString(v.Type(), func(*types.Package) string { return "" })
+					}
+				}
+			}
+			if carried == "" {
+				c.OK(rule, site, in.Pos(), "carries no request value")
+				return
+			}
+			var roots []*ssa.Function
+			for _, h := range p.callees(g) {
+				roots = append(roots, h)
+			}
+			reach := p.reachable(roots, nil)
+			bad := ""
+			for f := range reach {
+				if isSender[f] {
+					bad = fnKey(f)
+				}
+			}
+			if bad == "" {
+				c.OK(rule, site, in.Pos(), "the spawned code cannot enqueue on a request queue")
+			} else {
+				c.Fail(rule, site, in.Pos(), "a request ("+carried+") is handed to a new goroutine which can enqueue it on a request queue ("+bad+"): the order in which the requests of one connection reach a backend then depends on the scheduler, so a pipeline no longer executes in the order it was sent")
+			}
+		})
+	}
+	if nsend == 0 {
+		c.Unresolved(rule, "no send on a request queue found")
+	}
+	c.Expect(rule, 5)
 }
